@@ -11,7 +11,7 @@ RULE = (
     "A (call tree, selector) pair over the C03 function family: focus-free selectors (captures at every level, "
     "sibling sub-selectors, depth <= 3) and focused selectors forced to total mode; call trees include repeated and "
     "recursive outermost calls, several top-level calls per run, empty loops (a captured variable never bound) and "
-    "activations that raise, and record handlers that themselves raise at the end of an outermost call (the run then goes on in its caller).  Records from probing(sel, raw=True[, probe_type='total']) and from "
+    "activations that raise, generic captures (F_i(*) compared with the immediate probe F_i > *), and record handlers that themselves raise at the end of an outermost call (the run then goes on in its caller).  Records from probing(sel, raw=True[, probe_type='total']) and from "
     "BaseOverlay(Total(...)) are timestamped against the program's own log and compared with a reference computed "
     "from that log: one record per root-function activation at its exit, all values in binding order, only if every "
     "capture has a value.  non-trivial = reference expects >= 1 record; distinct = distinct (trees, selector) pairs."
@@ -123,6 +123,41 @@ def check_pair(ns, trees, sel, focus, mode, res, case):
     return s, n
 
 
+def check_generic(ns, trees, fi, res, case):
+    """A focus-free selector with a generic capture, F_i(*): one record per activation of F_i, and
+    together the records hold exactly the values that the immediate probe F_i > * delivers."""
+    from ptera import probing
+
+    res.evaluations += 1
+    recs, imm = [], []
+
+    def stable(v):
+        # mutable objects (the program's log, the call tree) are compared by type only
+        return repr(v) if isinstance(v, (int, str, type(None))) else type(v).__name__
+    try:
+        ns["reset"]()
+        with probing(f"F{fi}(*)", env=ns, raw=True) as prb:
+            prb.subscribe(lambda d: recs.append([stable(v) for c in d.values() for v in c.values]))
+            for t in trees:
+                CT.run_tree(ns, t)
+        n_act = sum(1 for e in ns["LOG"] if e[0] == "enter" and e[3] == fi)
+        ns["reset"]()
+        with probing(f"F{fi} > *", env=ns, raw=True) as prb:
+            prb.subscribe(lambda d: imm.extend(stable(c.value) for c in d.values()))
+            for t in trees:
+                CT.run_tree(ns, t)
+    except Exception as e:
+        res.violation(case, "exception while observing a generic capture: " + common.fmt_exc(e))
+        return
+    res.deciding += 1
+    flat = sorted(v for r in recs for v in r)
+    if len(recs) != n_act or flat != sorted(imm):
+        res.violation(case, {"what": f"total probe F{fi}(*) disagrees with the immediate probe F{fi} > *", "records": len(recs), "activations": n_act, "values_in_records": len(flat), "values_immediate": len(imm)})
+    res.count("generic_capture_total_checks")
+    if n_act:
+        res.nontrivial_case(["generic", trees, fi])
+
+
 def run_shard(spec):
     res = ShardResult()
     scratch = spec["scratch"]
@@ -135,6 +170,11 @@ def run_shard(spec):
             ns = CT.load_family(scratch, f"c07fam_{i}", nf)
             ns["__nf"] = nf
         nf = ns["__nf"]
+        if i % 10 == 0:
+            gr = rng_for("C07g", spec["seed"], i)
+            gtrees = [CT.rand_tree(gr, nf, [gr.randint(1, 6)], p_raise=0.1)]
+            gfi = gtrees[0][0] if gr.random() < 0.7 else gr.randrange(nf)
+            check_generic(ns, gtrees, gfi, res, {"nf": nf, "trees": gtrees, "generic": gfi, "sel": None, "focus": None, "mode": "probing"})
         ntop = rnd.choice([1, 1, 2, 3])
         trees = [CT.rand_tree(rnd, nf, [rnd.randint(1, spec["maxact"])], p_raise=0.15) for _ in range(ntop)]
         sel = CT.rand_sel(rnd, nf, rnd.randint(0, 2), p_cap=0.35)
@@ -168,6 +208,9 @@ def replay(case):
     res = ShardResult()
     d = common.scratch_dir("C07r")
     ns = CT.load_family(d, "c07fam_replay", case["nf"])
+    if case.get("generic") is not None:
+        check_generic(ns, case["trees"], case["generic"], res, case)
+        return res.violations
     print("trees:", case["trees"])
     print("selector:", case.get("selector"), "forced total:", case["focus"] is not None)
     check_pair(ns, case["trees"], case["sel"], case["focus"], case["mode"], res, case)
